@@ -603,6 +603,15 @@ class Interp:
             if isinstance(v, Tup) and len(v.items) == len(target.elts) and not any(isinstance(e, ast.Starred) for e in target.elts):
                 for t, x in zip(target.elts, v.items):
                     self.assign(t, x, fr)
+            elif isinstance(v, Tup) and sum(isinstance(e, ast.Starred) for e in target.elts) == 1 and len(v.items) >= len(target.elts) - 1:
+                # a, *rest, z = <tuple of known length>
+                si = [j for j, e in enumerate(target.elts) if isinstance(e, ast.Starred)][0]
+                after = len(target.elts) - si - 1
+                for t, x in zip(target.elts[:si], v.items[:si]):
+                    self.assign(t, x, fr)
+                self.assign(target.elts[si].value, Tup(list(v.items[si:len(v.items) - after])), fr)
+                for t, x in zip(target.elts[si + 1:], v.items[len(v.items) - after:]):
+                    self.assign(t, x, fr)
             else:
                 for t in target.elts:
                     self.assign(t.value if isinstance(t, ast.Starred) else t, UNK, fr)
